@@ -48,7 +48,7 @@ def run(c):
     if binary and drv:
         # the minimal histories first (4 of the name-reuse defect, 1 with draft tags through two compact siblings),
         # then the generated ones
-        rc, out = c.go_run(binary, ["-n=6", "-mode=witness"])
+        rc, out = c.go_run(binary, ["-n=7", "-mode=witness"])
         c.harness_ok(rc, out, "verif-c20 -mode=witness")
         c.correspond(out, drv, label="witness")
         rc, out = c.go_run(binary, [f"-n={c.n(300, 4000)}"], timeout=1500)
@@ -92,7 +92,10 @@ META = {
              "every schedule including restarts of the aggregator AND of the agent from old and/or truncated files (agent "
              "transiently ahead of the rolled-back aggregator): whenever the agent's loaderVersion reaches the source version it "
              "holds exactly the source's current entities, doubly transported, same versions, and agents have equal hashes — proved "
-             "for chains without the compaction skip (non-compact journals); (7) `two_hop_compact_rollback_counterexample`: for a "
+             "for chains without the compaction skip (non-compact journals); (6b) `load_any_cut` (+ `load_strict_prefix_lv`, `load_err_iff_tail`): a saved "
+             "file cut at ANY offset, in particular exactly at a chunk boundary where the read ends without error, reloads into a "
+             "journal that is Faithful up to the loaderVersion it reports, and that loaderVersion is the last event read (never the "
+             "header's) whenever events are missing; (7) `two_hop_compact_rollback_counterexample`: for a "
              "COMPACT aggregator the statement is false of the code (decide witness, replayed on the real chain). The model is "
              "tied to the code by replaying each generated history op by op on real JournalFast/MetricsStorage objects and on the "
              "compiled Lean model and diffing versions, hashes, journal order and all index maps; the hypotheses of (1) about the "
